@@ -8,7 +8,7 @@ from vlib.proto import hexs, unhex
 from checks import rtcomp
 
 HARNESS = "api_rt"
-NS1, NS2 = "urn:verif:rtx1", "urn:verif:rtx2"
+NS1, NS2 = "urn:verif:rtx1", "urn:verif:rtx2?a=1&b=2"
 YANG1 = """module rtx1 { yang-version 1.1; namespace "urn:verif:rtx1"; prefix a;
   import ietf-yang-metadata { prefix md; }
   md:annotation hint { type string; }
@@ -33,9 +33,11 @@ YANG1 = """module rtx1 { yang-version 1.1; namespace "urn:verif:rtx1"; prefix a;
   notification ev { leaf msg { type string; } leaf sev { type int64; } }
 }
 """
-YANG2 = """module rtx2 { yang-version 1.1; namespace "urn:verif:rtx2"; prefix b; import rtx1 { prefix a; }
-  augment "/a:top" { leaf aug { type string; } container ac { presence "p"; leaf in2 { type string; } leaf-list al { type string; } } }
-  augment "/a:top/a:l" { leaf lv2 { type string; } }
+YANG2 = """module rtx2 { yang-version 1.1; namespace "urn:verif:rtx2?a=1&b=2"; prefix a; import rtx1 { prefix r1; }
+  import ietf-yang-metadata { prefix md; }
+  md:annotation tag { type string; }
+  augment "/r1:top" { leaf aug { type string; } container ac { presence "p"; leaf in2 { type string; } leaf-list al { type string; } } }
+  augment "/r1:top/r1:l" { leaf lv2 { type string; } }
 }
 """
 STR = [b"", b"a", b"a b", b" ", b"&", b"<", b">", b"\"", b"'", b"]]>", b"a\tb", b"a\nb", b"a\rb", b"\r\n", b"\\", b"/", b"\x7f", b"\xc3\xa9", b"\xe2\x82\xac",
@@ -59,11 +61,11 @@ def to_xml(nodes, parent_mod=None):
         tag = n.name.encode()
         o = b"<" + tag
         if n.mod != parent_mod:
-            o += b' xmlns="' + ns.encode() + b'"'
+            o += b' xmlns="' + xesc(ns.encode(), True) + b'"'
         if n.meta:
-            o += b' xmlns:m="' + NS1.encode() + b'"'
+            o += b' xmlns:m1="' + xesc(NS1.encode(), True) + b'" xmlns:m2="' + xesc(NS2.encode(), True) + b'"'
             for k, v in n.meta:
-                o += b" m:" + k.encode() + b'="' + xesc(v, True) + b'"'
+                o += (b" m2:" if k == "tag" else b" m1:") + k.encode() + b'="' + xesc(v, True) + b'"'
         if n.kind in ("leaf", "leaflist"):
             out.append(o + (b"/>" if n.val == b"" else b">" + xesc(n.val) + b"</" + tag + b">"))
         elif n.kind == "anyxml-val":
@@ -85,7 +87,7 @@ def jval(n):
 
 
 def jmeta(meta):
-    return {"rtx1:" + k: (int(v) if k == "num" else v.decode("utf-8")) for k, v in meta}
+    return {("rtx2:" if k == "tag" else "rtx1:") + k: (int(v) if k == "num" else v.decode("utf-8")) for k, v in meta}
 
 
 def to_json(nodes, parent_mod=None):
@@ -164,6 +166,11 @@ def meta_of(rng, p=0.25):
         m.append(("hint", rng.choice(STR + [text(rng, 4)])))
     if rng.random() < 0.4:
         m.append(("num", str(rng.choice([-128, -1, 0, 7, 127])).encode()))
+    if rng.random() < 0.3:
+        # annotation of the other module, which uses the SAME prefix: alone on its element, so that nested elements mix the two
+        # namespaces under one prefix (F48); both on ONE element is finding F49 (duplicate xmlns:a attribute), exercised by the
+        # dedicated witness in run_rtx
+        m = [("tag", rng.choice(STR))]
     return m
 
 
@@ -282,7 +289,18 @@ def run_rtx(cx, laws=("roundtrip", "independent")):
         for fmt, doc in (("xml", x), ("json", j)):
             lines.append("%d rt rtop %s %s %s" % (len(lines), ty, fmt, hexs(doc)))
             meta[len(lines) - 1] = ("rtop", fmt, doc, x, j)
-    ri = cx.run_impl(HARNESS, lines, component="rtx", timeout=1200)
+    # witness of F49: annotations of two modules that share a prefix on one element
+    w = [N("rtx1", "top", "cont", kids=[N("rtx1", "s", "leaf", b"v", meta=[("hint", b"h"), ("tag", b"t")])])]
+    lines.append("%d rt rt json %s" % (len(lines), hexs(json.dumps(to_json(w)).encode())))
+    meta[len(lines) - 1] = ("f49", "json", None, to_xml(w), json.dumps(to_json(w)).encode())
+    # one ctx line serves all: replicate it per chunk so that the stream can be dealt to several processes
+    head, body = lines[0], lines[1:]
+    chunked = []
+    for i in range(0, len(body), 400):
+        chunked.append(head if i == 0 else "c%d rt ctx %s" % (i, head.split(" ", 3)[3]))
+        chunked += body[i:i + 400]
+    ri = rtcomp.run_batched(cx, chunked, "rtx", per_batch=1)
+    xmlitems = []
     if ri.get("0", ["err"])[0] != "ok":
         cx.fail("rtx", "fixed schema rejected", {"reply": ri.get("0")})
         return
@@ -290,6 +308,10 @@ def run_rtx(cx, laws=("roundtrip", "independent")):
         kind, fmt, doc, x, j = meta[i]
         r = ri.get(str(i), ["err", "NoReply"])
         base = {"xml": x.decode("utf-8", "replace")[:3000], "json": j.decode("utf-8", "replace")[:3000], "reply": r[:2]}
+        if kind == "f49":
+            if r[0] == "ok" and rtcomp.expat_structure(unhex(r[2])) is None and unhex(r[2]).count(b"xmlns:a=") >= 2:
+                cx.fail("rtx", "XML output is not well-formed (two xmlns:a declarations on one element)", dict(base, xml_out=unhex(r[2]).decode(), triage="F49"))
+            continue
         if kind == "leak":
             if r != ["ok", "0"]:
                 cx.fail("rtx", "memory leaked (LeakSanitizer) in the preceding 25 instances", base)
@@ -304,6 +326,8 @@ def run_rtx(cx, laws=("roundtrip", "independent")):
             cx.fail("rtx", "valid %s instance rejected by the %s parser" % (kind, fmt), dict(base, doc=doc.decode("utf-8", "replace")[:3000]))
             continue
         matrix, px, pj = r[1], unhex(r[2]), unhex(r[3])
+        if kind == "rt" and fmt == "xml" and len(r) > 4:
+            xmlitems.append((unhex(r[4]), px))
         if "roundtrip" in laws:
             bad = [c for c in matrix if c not in "=-"]
             if bad:
@@ -328,4 +352,6 @@ def run_rtx(cx, laws=("roundtrip", "independent")):
             elif a != b:
                 cx.fail("rtx", "XML output read by an independent parser differs from the independent XML encoding of the same instance (elements, namespaces, attributes or character data)",
                         dict(base, xml_out=px.decode("utf-8", "replace")[:3000], first_diff=rtcomp.first_diff(a, b)))
+    rtcomp.model_xml_print(cx, xmlitems, "rtx")
+    rtcomp.spec_xmldoc_vs_expat(cx, [px for _, px in xmlitems] + [m[3] for m in meta.values() if m[0] == "rt" and m[1] == "xml"], "rtx")
     cx.sample(lines[1][:300])
